@@ -129,3 +129,318 @@ def _choke_point(ctx):
                            detail={'references': refs})
     ctx.obligation('choke point: no file outside %s references a process-starting function' % (ALLOWED_FILES,),
                    set(per_file) <= set(ALLOWED_FILES), 'scan', detail={'offending': sorted(set(per_file) - set(ALLOWED_FILES))})
+
+
+# ------------------------------------------------------------------------------ (3) plumbing: spec vocabulary
+# A *process start request* is a call of `execute` on the (opaque) CommandExecutor of the OS services; it is
+# a ghost event carrying the settings object it was given (contracts.C10_process.CommandExecutorI).
+
+def all_use(trace, executor, settings):
+    """every process start requested on this path went to `executor` and carried exactly the object
+    `settings` (hence its timeout)"""
+    return all([ex is executor and s is settings for (ex, _c, s, _f) in executions(trace)])
+
+
+def all_use_timeout(trace, executor, timeout):
+    """every process start requested on this path went to `executor` with settings whose timeout is `timeout`"""
+    return all([ex is executor and timeout_of(s) == timeout for (ex, _c, s, _f) in executions(trace)])
+
+
+def one_start(trace, command):
+    """exactly one process start was requested, for `command`, and it returned"""
+    es = executions(trace)
+    return len(es) == 1 and es[0][1] is command and len(execution_results(trace)) == 1
+
+
+# ------------------------------------------------------------------------------ processors
+
+from exactly_lib.impls.program_execution.processors import store_result_in_files, read_stderr_on_error, \
+    w_exit_code_handling
+
+P_SRF = 'exactly_lib.impls.program_execution.processors.store_result_in_files'
+P_RSE = 'exactly_lib.impls.program_execution.processors.read_stderr_on_error'
+P_WEH = 'exactly_lib.impls.program_execution.processors.w_exit_code_handling'
+
+EXECUTOR = Iface(CommandExecutorI)
+DIR_W_RESULT_FILES = Inst(DirWithResultFiles, _directory=Iface(FsPathI))
+
+
+class TextReaderI(Interface):
+    methods = {'read': Method(returns=Str)}
+
+
+class DirFileSpaceI(Interface):
+    methods = {'new_path': Method(returns=Iface(FsPathI)),
+               'new_path_as_existing_dir': Method(returns=Iface(FsPathI))}
+
+
+STORES_RESULT = Inst(store_result_in_files.ProcessorThatStoresResultInFilesInDir,
+                     _storage_dir_created_on_demand=DIR_W_RESULT_FILES, _executor=EXECUTOR, _stdin=Iface(StdinCtxI))
+STORES_STDERR = Inst(store_result_in_files.ProcessorThatStoresStderrInFiles,
+                     _stderr_path_created_on_demand=Iface(FsPathI), _executor=EXECUTOR,
+                     _stdin=Iface(StdinCtxI), _stdout=Iface(StdinCtxI))
+READS_STDERR_W_FILES = Inst(read_stderr_on_error.ProcessorThatStoresResultInFilesInDirAndReadsStderrOnNonZeroExitCode,
+                            _executor=STORES_RESULT, _stderr_msg_reader=Iface(TextReaderI))
+READS_STDERR = Inst(read_stderr_on_error.ProcessorThatReadsStderrOnNonZeroExitCode,
+                    _executor=EXECUTOR, _tmp_file_space=Iface(DirFileSpaceI),
+                    _stdin=Iface(StdinCtxI), _stdout=Iface(StdinCtxI), _stderr_msg_reader=Iface(TextReaderI))
+
+
+def _executor_of(processor):
+    e = processor._executor
+    return e._executor if isinstance(e, store_result_in_files.ProcessorThatStoresResultInFilesInDir) else e
+
+
+for _q, _shape in ((P_SRF + ':ProcessorThatStoresResultInFilesInDir.process', STORES_RESULT),
+                   (P_SRF + ':ProcessorThatStoresStderrInFiles.process', STORES_STDERR),
+                   (P_RSE + ':ProcessorThatStoresResultInFilesInDirAndReadsStderrOnNonZeroExitCode.process',
+                    READS_STDERR_W_FILES),
+                   (P_RSE + ':ProcessorThatReadsStderrOnNonZeroExitCode.process', READS_STDERR)):
+    M.contract(_q, inline=True, params=dict(self=_shape, settings=SETTINGS, command=Any_),
+               ensures={
+                   'one process start, with the given settings object (its timeout) unchanged':
+                       lambda self, settings, command, trace:
+                       one_start(trace, command) and all_use(trace, _executor_of(self), settings),
+                   'exit code is the one the executor returned': lambda result, trace:
+                   result.exit_code == execution_results(trace)[0],
+               },
+               raises={HardErrorException: {'ensures': lambda self, settings, trace:
+               all_use(trace, _executor_of(self), settings)}},
+               raises_only=())
+
+from exactly_lib.type_val_prims.program.command import Command
+from exactly_lib.impls.program_execution.command_processor import CommandProcessor
+
+PROCESS = 'process'
+
+
+class StructureBuilderI(Interface):
+    """description trees (for error messages): opaque"""
+    methods = {'build': Method(returns=Any_), 'as_render': Method(returns=Any_),
+               'append_child': Method(returns=Any_), 'append_details': Method(returns=Any_)}
+
+
+class CommandI(Interface):
+    """a Command the site only hands on (its translation to an argv is C10)"""
+    target_class = Command
+    attrs = {'driver': Any_, 'arguments': Any_}
+    methods = {'new_structure_builder': Method(returns=Iface(StructureBuilderI))}
+
+
+A_COMMAND = Iface(CommandI)
+
+
+class CommandProcessorI(Interface):
+    """any CommandProcessor: `process(settings, command)` is a ghost event; returns an (exit code, stderr file) pair"""
+    target_class = CommandProcessor
+    methods = {PROCESS: Method(returns=Inst(store_result_in_files.ExitCodeAndStderrFile, _tuple=[Int, Iface(FsPathI)]),
+                               event=PROCESS, params=['settings', 'command'], may_raise=(_mk_hard_error,))}
+
+
+def processings(trace):
+    return [(e[1], e[2][0], e[2][1]) for e in trace if e[0] == PROCESS]
+
+
+W_EXIT_CODE_HANDLING = Inst(w_exit_code_handling.Processor, err_msg_reader=Iface(TextReaderI),
+                            get_exit_code=Const(store_result_in_files.ExitCodeAndStderrFile.exit_code.fget),
+                            get_stderr=Const(store_result_in_files.ExitCodeAndStderrFile.stderr.fget),
+                            handled=Iface(CommandProcessorI))
+
+M.contract(P_WEH + ':Processor.process', inline=True,
+           params=dict(self=W_EXIT_CODE_HANDLING, settings=SETTINGS, command=A_COMMAND),
+           ensures={
+               'delegates once, with the given settings object unchanged': lambda self, settings, command, trace:
+               processings(trace) == [(self.handled, settings, command)],
+               'returns only when the exit code is zero': lambda result: result.exit_code == 0,
+           },
+           raises={HardErrorException: {'ensures': lambda self, settings, command, trace:
+           processings(trace) == [(self.handled, settings, command)]}},
+           raises_only=())
+
+
+# ------------------------------------------------------------------------------ environments (shapes)
+
+from exactly_lib.test_case.app_env import ApplicationEnvironment
+from exactly_lib.test_case.phases.instruction_environment import (InstructionEnvironmentForPostSdsStep,
+                                                                  InstructionEnvironmentForPreSdsStep, TmpFileStorage)
+from exactly_lib.test_case.phases.instruction_settings import InstructionSettings
+from exactly_lib.test_case.phases.act.execution_input import AtcExecutionInput
+
+OS_SERVICES = Iface(OsServicesI)
+DIR_FILE_SPACE = Iface(DirFileSpaceI)
+
+TMP_FILE_STORAGE = Inst(TmpFileStorage, _root_dir__may_not_exist=Iface(FsPathI), _root_dir__existing=Const(None),
+                        _paths_access_for_dir=DIR_FILE_SPACE)
+ENV_POST_SDS = Inst(InstructionEnvironmentForPostSdsStep, _hds=Any_, _symbols=Any_, _proc_exe_settings=SETTINGS,
+                    _mem_buff_size=Nat, _tmp_dir_space=TMP_FILE_STORAGE, _sds=Any_)
+APP_ENV = Inst(ApplicationEnvironment, _os_services=OS_SERVICES, _process_execution_settings=SETTINGS,
+               _tmp_files_space=DIR_FILE_SPACE, _mem_buff_size=Nat)
+
+
+def env_timeout(environment):
+    """the timeout in force for an instruction environment: the one of its process execution settings"""
+    return timeout_of(environment._proc_exe_settings)
+
+
+def app_env_of(app_env, os_services, environment):
+    """`app_env` carries the OS services and -- unchanged, the very object -- the settings of `environment`"""
+    return type(app_env) is ApplicationEnvironment and app_env._os_services is os_services \
+        and app_env._process_execution_settings is environment._proc_exe_settings
+
+
+# opaque chain  sdv.resolve(symbols).value_of_any_dependency(tcds).primitive(app_env):  `primitive` is a ghost
+# event that records the application environment the primitive (matcher, program, file maker ...) is built with
+
+PRIMITIVE = 'primitive'
+
+
+def primitives(trace):
+    """the application environments handed to `primitive(...)` on this path"""
+    return [e[2][0] for e in trace if e[0] == PRIMITIVE]
+
+
+def all_primitives_of(trace, os_services, environment):
+    return all([app_env_of(a, os_services, environment) for a in primitives(trace)])
+
+
+# ------------------------------------------------------------------------------ settings constructed from an environment
+
+M.contract('exactly_lib.impls.actors.util.atc_proc_exe_settings:for_atc', inline=True,
+           params=dict(environment=ENV_POST_SDS,
+                       execution_input=Inst(AtcExecutionInput, _tuple=[Opt(Any_), Opt(Any_)])),
+           ensures={
+               'timeout-of-the-environment': lambda environment, result: timeout_of(result) == env_timeout(environment),
+               'environ-of-the-act-phase-input': lambda execution_input, result:
+               environ_of(result) == execution_input[1] and type(result) is ProcessExecutionSettings,
+           }, raises_only=())
+
+from exactly_lib.impls.instructions.multi_phase.environ import impl as environ_impl
+
+APP_ENV_CONSTRUCTOR = Inst(environ_impl._AppEnvConstructor, _environment=ENV_POST_SDS, _os_services=OS_SERVICES)
+
+M.contract('exactly_lib.impls.instructions.multi_phase.environ.impl:_AppEnvConstructor._proc_exe_settings', inline=True,
+           params=dict(self=APP_ENV_CONSTRUCTOR, environ=Opt(Any_)),
+           ensures={'timeout-of-the-environment': lambda self, environ, result:
+           timeout_of(result) == env_timeout(self._environment) and environ_of(result) == environ
+           and type(result) is ProcessExecutionSettings}, raises_only=())
+
+M.contract('exactly_lib.impls.instructions.multi_phase.environ.impl:_AppEnvConstructor.of', inline=True,
+           params=dict(self=APP_ENV_CONSTRUCTOR, environ=Opt(Any_)),
+           ensures={'timeout-of-the-environment': lambda self, result:
+           type(result) is ApplicationEnvironment and result._os_services is self._os_services
+           and timeout_of(result._process_execution_settings) == env_timeout(self._environment)}, raises_only=())
+
+P_LTRH = 'exactly_lib.impls.instructions.utils.logic_type_resolving_helper'
+
+M.contract(P_LTRH + ':full_resolving_env_for_instruction_env', inline=True,
+           params=dict(os_services=OS_SERVICES, environment=ENV_POST_SDS),
+           ensures={'settings-of-the-environment-unchanged': lambda os_services, environment, result:
+           app_env_of(result[2], os_services, environment)}, raises_only=())
+
+M.contract(P_LTRH + ':resolving_helper_for_instruction_env', inline=True,
+           params=dict(os_services=OS_SERVICES, environment=ENV_POST_SDS),
+           ensures={'settings-of-the-environment-unchanged': lambda os_services, environment, result:
+           app_env_of(result._application_environment, os_services, environment)}, raises_only=())
+
+from exactly_lib.execution.partial_execution.impl import atc_execution
+
+M.contract('exactly_lib.execution.partial_execution.impl.atc_execution:ActionToCheckExecutor._app_env_for_execute',
+           inline=True,
+           params=dict(self=Inst(atc_execution.ActionToCheckExecutor, environment_for_other_steps=ENV_POST_SDS,
+                                 os_services=OS_SERVICES)),
+           ensures={'settings-of-the-environment-unchanged': lambda self, result:
+           app_env_of(result, self.os_services, self.environment_for_other_steps)}, raises_only=())
+
+
+# ------------------------------------------------------------------------------ opaque sdv / ddv / adv chains
+
+class PrimI(Interface):
+    """whatever `primitive(app_env)` gives (file maker, model getter, matcher, program ...): an opaque object;
+    what it does with the application environment it was built with is the contract of ITS class (below)"""
+    attrs = {'value': Bool, 'trace': Any_, 'command': Iface(CommandI), 'stdin': ListOf(Any_),
+             'transformation': ListOf(Any_)}
+    methods = {'make__translate_hard_error': Method(returns=Opt(Any_)),
+               'get': Method(returns=Any_, event='get', may_raise=(_mk_hard_error,)),
+               'matches_w_trace': Method(returns=Iface(lambda: PrimI), event='matches_w_trace',
+                                         may_raise=(_mk_hard_error,)),
+               'structure': Method(returns=Any_)}
+
+
+class AdvI(Interface):
+    methods = {PRIMITIVE: Method(returns=Iface(PrimI), event=PRIMITIVE, params=['environment'])}
+
+
+class ValidatorI(Interface):
+    methods = {'validate_pre_sds_if_applicable': Method(returns=Opt(Any_)),
+               'validate_post_sds_if_applicable': Method(returns=Opt(Any_))}
+
+
+class DdvI(Interface):
+    attrs = {'validator': Iface(ValidatorI)}
+    methods = {'value_of_any_dependency': Method(returns=Iface(AdvI)),
+               'value_of_any_dependency__d': Method(returns=Any_)}
+
+
+class SdvI(Interface):
+    attrs = {'references': Any_}
+    methods = {'resolve': Method(returns=Iface(DdvI))}
+
+
+SDV = Iface(SdvI)
+DDV = Iface(DdvI)
+
+# ------------------------------------------------------------------------------ instructions that build an ApplicationEnvironment
+
+from exactly_lib.impls.instructions.multi_phase import new_file, new_dir
+from exactly_lib.impls.instructions.assert_.utils import instruction_of_matcher
+
+M.contract('exactly_lib.impls.instructions.multi_phase.new_file:_TheInstructionEmbryo.main',
+           params=dict(self=Inst(new_file._TheInstructionEmbryo, _path_to_create=SDV, _file_maker=SDV, _validator=Any_),
+                       environment=ENV_POST_SDS, settings=Any_, os_services=OS_SERVICES),
+           returns=Opt(Any_),
+           ensures={'file maker is built with the settings of the environment, unchanged':
+                    lambda environment, os_services, trace:
+                    len(primitives(trace)) == 1 and all_primitives_of(trace, os_services, environment)},
+           raises_only=())
+
+M.contract('exactly_lib.impls.instructions.multi_phase.new_dir:TheInstructionEmbryo.main',
+           params=dict(self=Inst(new_dir.TheInstructionEmbryo, _dir_path_sdv=SDV, _file_maker=SDV, _references=Any_),
+                       environment=ENV_POST_SDS, settings=Any_, os_services=OS_SERVICES),
+           returns=Opt(Any_),
+           ensures={'file maker is built with the settings of the environment, unchanged':
+                    lambda environment, os_services, trace:
+                    len(primitives(trace)) == 1 and all_primitives_of(trace, os_services, environment)},
+           raises_only=())
+
+
+from exactly_lib.test_case.result import pfh, sh
+
+
+class FailureMessageConfigI(Interface):
+    methods = {'head': Method(returns=Any_), 'tail': Method(returns=Any_)}
+
+
+MATCHER_INSTRUCTION = Inst(instruction_of_matcher.Instruction, _matcher=SDV, _model_getter=SDV,
+                           _failure_message_config=Iface(FailureMessageConfigI))
+
+M.contract('exactly_lib.impls.instructions.assert_.utils.instruction_of_matcher:Instruction._execute', inline=True,
+           params=dict(self=MATCHER_INSTRUCTION, os_services=OS_SERVICES, environment=ENV_POST_SDS,
+                       model_getter_ddv=DDV, matcher_ddv=DDV),
+           ensures={'model getter and matcher are built with the settings of the environment, unchanged':
+                    lambda environment, os_services, trace:
+                    len(primitives(trace)) == 2 and all_primitives_of(trace, os_services, environment)},
+           raises={HardErrorException: {'ensures': lambda environment, os_services, trace:
+           all_primitives_of(trace, os_services, environment)}},
+           raises_only=())
+
+M.contract('exactly_lib.impls.instructions.assert_.utils.instruction_of_matcher:Instruction.main',
+           params=dict(self=MATCHER_INSTRUCTION, environment=ENV_POST_SDS, settings=Any_, os_services=OS_SERVICES),
+           returns=Any_,
+           ensures={
+               'model getter and matcher are built with the settings of the environment, unchanged':
+                   lambda environment, os_services, trace: all_primitives_of(trace, os_services, environment),
+               'a hard error of the model getter or matcher (e.g. a timeout) is reported as HARD_ERROR':
+                   lambda result, trace:
+                   (not any([e[0] in ('get:raised', 'matches_w_trace:raised') for e in trace]))
+                   or result.status is pfh.PassOrFailOrHardErrorEnum.HARD_ERROR,
+           }, raises_only=())
